@@ -449,7 +449,7 @@ TIGHT = [((192, 192, 128, 128, 128), 2), ((320, 320, 256, 256, 192, 192, 192), 3
 
 def gen_assign_blocks(thorough: bool):
     """Exhaustive part of stream A: (prefix, vals, k, gs) stands for all lists prefix + t, t in vals^k, with group size gs."""
-    scopes = [(V8, 0, 6), (T4, 7, 7)] if thorough else [(V8, 0, 5), (V6, 6, 6)]
+    scopes = [(V8, 0, 6), (V6, 6, 6), (T4, 7, 7)] if thorough else [(V8, 0, 5), (V4, 6, 6)]
     blocks = []
     for vals, minn, maxn in scopes:
         for n in range(minn, maxn + 1):
@@ -618,7 +618,7 @@ def run(ck: Check) -> None:
         return f"C14_assign_checkbZ {zl(s)} {gs} {zpairs(o)}"
 
     tt = [time.time()]
-    k_res = eval_lists(ck, "c14k", [k_entry(g, "agree_block", agree_case) for g in k_groups])
+    k_res = eval_lists(ck, "c14k", [k_entry(g, "agree_block", agree_case) for g in k_groups], max_bytes=100000)
     tt.append(time.time())
     # ---------------- stream A: random and hand-picked inputs ----------------
     a_cases = {}      # (sizes, gs, output) -> list of copies
@@ -691,7 +691,7 @@ def run(ck: Check) -> None:
 
     # ---------------- verdicts (DESIGN 2.4): certified checkers on the implementation's own output ----------------
     if a_bad:
-        k_chk = eval_lists(ck, "c14k_chk", [k_entry(g, "check_block", check_case) for g in k_groups])
+        k_chk = eval_lists(ck, "c14k_chk", [k_entry(g, "check_block", check_case) for g in k_groups], max_bytes=100000)
         a_chk = eval_bools(ck, "c14a_chk", [a_item(k, "check_packed", check_case) if k[1] >= 1 else "true" for k in a_keys])
         failing = [(s, gs, o, a_cases[(s, gs, o)]) for (s, gs, o), b in zip(a_keys, a_chk) if b != "T"]
         for g, r in zip(k_groups, k_chk):
@@ -842,7 +842,7 @@ def run(ck: Check) -> None:
     ck.coverage.update({
         "evaluations": total_eval,
         "distinct_nontrivial": nontriv,
-        "rule": (f"stream A: all lists over {'V8^<=6 and T4^7' if thorough else 'V8^<=5 and V6^6'} (V8={list(V8)}, V6={list(V6)}, V4={list(V4)}, T4={list(T4)}) x group sizes 1..4 (exhaustive; inputs enumerated inside Coq in "
+        "rule": (f"stream A: all lists over {'V8^<=6, V6^6 and T4^7' if thorough else 'V8^<=5 and V4^6'} (V8={list(V8)}, V6={list(V6)}, V4={list(V4)}, T4={list(T4)}) x group sizes 1..4 (exhaustive; inputs enumerated inside Coq in "
                  f"itertools.product order) + group size 0 + LPT worst-case families + random lists (<= {256 if thorough else 64} blocks, groups <= {32 if thorough else 16}, numel x {{4,2}} bytes), each on the three copies "
                  f"(copies with identical outputs share one Coq evaluation); stream B: all lists of <= {4 if thorough else 3} numels over {list(N6)} x groups 1..4 x dtypes + random (three copies); "
                  "stream C: random cluster scenarios, every rank of one replication group, three copies; evaluations = implementation calls compared; distinct_nontrivial = distinct inputs with group size >= 2 and >= 2 blocks"),
